@@ -230,6 +230,22 @@ CLAIMED = {
         "contract-based deductive verification: symbolic execution of the real code on enumerated shapes + mechanical enumeration / syntactic scan of mutators; bounded native round trips",
         "DESIGN.md §3 C15",
     ),
+    "C01": (
+        "proof",
+        "Three layers, 106 obligations discharged by z3: (1) per-function contracts proved on the real code with symbolic neighbours - "
+        "Node/Value.flag_outdated, Value/Var.value setter (flag outputs, full update iff auto-update), Calc/Dist/Transient update and value, "
+        "outdated properties, state get/set, Model.update for 0..4 nodes (updated iff outdated [and targeted], in order, at most once), "
+        "_recursive_inputs = ancestor closure through all_input_nodes incl. a distribution's evaluation node; (2) for an ARBITRARY DAG "
+        "(uninterpreted node sort, quantified Reach/EffIn) the coherence invariant is preserved by assignment, by every step of the "
+        "topological update loop (full and targeted, with 'evaluated at most once and only if dirty'), and by state restore - lemmas over "
+        "the contracts of (1); (3) the real builder/model/node code executed symbolically over 4 shapes x all operation histories of length "
+        "<= 3 (848+ model states per shape, every value and node function symbolic) against an independent from-scratch evaluator with "
+        "evaluation counters. Bounded: random DAGs x histories natively against from-scratch rebuilds.",
+        "A-PURE node functions deterministic and exception-free; induction over the DAG / loop (meta); A-NX; topological order from C15; "
+        "transient nodes collapsed into effective-input edges in the lemmas; shapes / history length enumerated in layer (3).",
+        "contract-based deductive verification: function contracts on the real code + quantified graph lemmas over those contracts + symbolic execution over enumerated histories (own VC generator, z3)",
+        "DESIGN.md §3 C01",
+    ),
 }
 
 NOT_APPLICABLE = {
